@@ -113,8 +113,24 @@ func goVal(v bvalJ) any {
 	panic("bad value kind " + v.T)
 }
 
+// defined types whose underlying kind equals a BCL value kind: a plain int is not assignable to them (no coercion)
+type (
+	Level   int
+	Mode    string
+	Ratio   float64
+	Enabled bool
+)
+
 func kindType(f bfldJ) reflect.Type {
 	switch f.Kind {
+	case "defint":
+		return reflect.TypeOf(Level(0))
+	case "defstring":
+		return reflect.TypeOf(Mode(""))
+	case "deffloat":
+		return reflect.TypeOf(Ratio(0))
+	case "defbool":
+		return reflect.TypeOf(Enabled(false))
 	case "int":
 		return reflect.TypeOf(0)
 	case "float":
@@ -463,7 +479,8 @@ func replayBind(args []string) int {
 		case "c05":
 			return shape == "error-for-nil" || shape == "target-differs"
 		case "c15":
-			return strings.HasPrefix(shape, "panic:") || shape == "nil-for-error" || shape == "slice-changed-on-error"
+			// (a value stored in a field other than the corresponding one is "nil without having stored it" too)
+			return strings.HasPrefix(shape, "panic:") || shape == "nil-for-error" || shape == "slice-changed-on-error" || shape == "target-differs"
 		}
 		return true
 	}
